@@ -60,15 +60,16 @@ fn value_of(setting: &str, src: usize, ports: &[u16; 3], bools: u8) -> String {
     match setting {
         "ip" => ["127.0.0.2", "127.0.0.3", "127.0.0.4"][src].to_string(),
         "port" => ports[src].to_string(),
-        "thread_count" => ["3", "5", "7"][src].to_string(),
+        // numeric settings draw their three values from one of four pools (bits 6..7 of the selector byte): small, smallest legal, powers of two, large
+        "thread_count" => [["3", "5", "7"], ["1", "2", "4"], ["2", "1", "16"], ["64", "8", "1"]][(bools >> 6) as usize & 3][src].to_string(),
         "allow_all" | "allow_credentials" => b(src).to_string(),
         // values carry the characters that mean something to one of the three readers ('_' and '-' of key normalisation, upper case, '.', ':', '/', '+', '~', '*')
         "allow_origins" => ["https://env_host.example,https://env2.example", "https://file_host.example:8443,https://File2.example", "https://cli_host.example"][src].to_string(),
         "allow_methods" => ["GET", "POST,PUT", "DELETE,PATCH"][src].to_string(),
         "allow_headers" => ["x_env-h", "x_file-h,Content-Type", "x_cli-h~1"][src].to_string(),
         "expose_headers" => ["x-exp_env", "X-Exp_File,etag", "x-exp_cli+1"][src].to_string(),
-        "max_age" => ["11", "22", "33"][src].to_string(),
-        _ => ["5001", "6002", "7003"][src].to_string(),
+        "max_age" => [["11", "22", "33"], ["0", "1", "2"], ["86400", "600", "31536000"], ["4294967295", "10", "0"]][(bools >> 6) as usize & 3][src].to_string(),
+        _ => [["5001", "6002", "7003"], ["1000", "2000", "4096"], ["20000", "65536", "10001"], ["9999", "100000", "512"]][(bools >> 6) as usize & 3][src].to_string(),
     }
 }
 fn default_of(setting: &str) -> String {
@@ -266,7 +267,7 @@ pub fn run(ctx: &Ctx) {
     ctx.clear_inflight();
     if ctx.worker == 0 { ctx.mark_exhaustive("exhaustive"); }
     let render = (any::<bool>(), any::<u8>(), any::<u8>(), any::<u8>(), any::<u16>(), any::<u64>(), proptest::bool::weighted(0.1), prop_oneof![2 => Just(0u16), 3 => any::<u16>()]).prop_map(|(crlf, quotes, spaces, comments, hyphen_keys, order, tabs, layout)| Render { crlf, quotes, spaces, comments, hyphen_keys, order, tabs, layout });
-    let strat = (proptest::collection::vec(0u8..8, 11), proptest::collection::vec(prop_oneof![3 => 0u8..8, 1 => 0u8..64], 11), any::<u16>(), render).prop_map(|(mut subsets, bools, short_flags, render)| {
+    let strat = (proptest::collection::vec(0u8..8, 11), proptest::collection::vec(prop_oneof![3 => 0u8..8, 1 => 0u8..64, 2 => any::<u8>()], 11), any::<u16>(), render).prop_map(|(mut subsets, bools, short_flags, render)| {
         // keep most runs away from the shared default port
         if subsets[1] == 0 && short_flags % 8 != 0 { subsets[1] = 1; }
         // keep the CORS sub-settings observable in most runs: the allow-all switch is mostly false wherever it is supplied
